@@ -132,3 +132,10 @@ func H_C06_order() {
 	}
 	vReach("end")
 }
+
+//verif:witness H_C06_contention end
+//verif:bound C06 all contention: buffer pre-filled with the worker parked, 2 producers submit concurrently (see C04 contention bound); under Discard/DiscardOldest the calls must return while the worker stays parked (a blocked call is the outcome BLOCKED)
+//verif:engine-only H_C06_contention
+
+// H_C06_contention: with the worker parked, concurrent overflowing calls under the discard policies return.
+func H_C06_contention() { vContention() }
